@@ -353,8 +353,8 @@ def check_cse_occurrences(hdr, res, seed, stats):
             groups.setdefault(varref[1], [varref]).append(occ)
     for s in range(2):
         env = ev.Env(hdr, '%s-cse-%d' % (seed, s))
-        fo = ev.Forest(forest, env)
         for name, lst in groups.items():
+            fo = ev.Forest(forest, env)
             try:
                 vals = [fo.ev(x) for x in lst]
             except (ev.Unsupported, ev.Undefined):
